@@ -6,22 +6,22 @@ impl<const N: usize> Bvf<{I}, N> {
     pub open spec fn wf(&self) -> bool {
         &&& Self::size_ok()
         &&& self.length <= N * {I.bits}
-        &&& forall|i: int| self.length <= i < N * {I.bits} ==> !bit_at(self.data@, i)
+        &&& forall|i: int| self.length <= i < N * {I.bits} ==> !bit_at{X}(self.data@, i)
     }
     /// the list of bits, index 0 least significant
     pub open spec fn bits(&self) -> Seq<bool> {
-        Seq::new(self.length as nat, |i: int| bit_at(self.data@, i))
+        Seq::new(self.length as nat, |i: int| bit_at{X}(self.data@, i))
     }
     pub open spec fn cap() -> int { N * {I.bits} }
 }
 
 
-pub proof fn lemma_zero_words<const N: usize>(d: [{I}; N])
+pub proof fn lemma_zero_words{X}<const N: usize>(d: [{I}; N])
     requires forall|k: int| 0 <= k < N ==> d@[k] == 0{I}
-    ensures forall|i: int| 0 <= i < N * {I.bits} ==> !bit_at(d@, i)
+    ensures forall|i: int| 0 <= i < N * {I.bits} ==> !bit_at{X}(d@, i)
 {
-    assert forall|i: int| 0 <= i < N * {I.bits} implies !bit_at(d@, i) by {
+    assert forall|i: int| 0 <= i < N * {I.bits} implies !bit_at{X}(d@, i) by {
         assert(d@[i / {I.bits}] == 0{I});
-        lemma_wbit_zero((i % {I.bits}) as {I});
+        lemma_wbit_zero{X}((i % {I.bits}) as {I});
     }
 }
